@@ -23,6 +23,29 @@ Lemma nodup_keys_bound {V} (m : amap V) (l : list N) :
   NoDup l -> incl l (map fst m) -> (length l <= length m)%nat.
 Proof. intros ND I. pose proof (NoDup_incl_length ND I) as L. rewrite map_length in L. exact L. Qed.
 
+(** * /XRefStm of one section *)
+Lemma stm_parse_secs m r hs : stm_parse m r = WOk hs -> hs = xrefstm_secs m r.
+Proof.
+  unfold stm_parse, xrefstm_target, xrefstm_secs. destruct (s_sec r).
+  - destruct (s_xrefstm r) as [x|]; [|intro H; injection H as <-; reflexivity].
+    destruct (mfind x m); [intro H; injection H as <-; reflexivity|discriminate].
+  - intro H. injection H as <-. destruct (s_xrefstm r); reflexivity.
+Qed.
+Lemma stm_parse_ok m r : xrefstm_ok m r -> stm_parse m r = WOk (xrefstm_secs m r).
+Proof.
+  unfold xrefstm_ok, stm_parse, xrefstm_target, xrefstm_secs. destruct (s_sec r).
+  - destruct (s_xrefstm r) as [x|]; [|reflexivity].
+    destruct (mfind x m); [reflexivity|]. intro H. exfalso. apply H. reflexivity.
+  - destruct (s_xrefstm r); reflexivity.
+Qed.
+Lemma stm_parse_nofuel m r : stm_parse m r <> WFuel.
+Proof. unfold stm_parse. destruct (xrefstm_target r) as [x|]; [destruct (mfind x m)|]; discriminate. Qed.
+Lemma stm_parse_len m r hs : stm_parse m r = WOk hs -> (length hs <= 1)%nat.
+Proof.
+  unfold stm_parse. destruct (xrefstm_target r) as [x|]; [destruct (mfind x m)|]; intro H;
+    try discriminate; injection H as <-; cbn; lia.
+Qed.
+
 (** * the loop as coded (carrying merged_table) = merge of the collected list *)
 Lemma walk_merge_walk m : forall fuel visited cur merged,
   walk_merge m fuel visited cur merged =
@@ -35,7 +58,9 @@ Proof.
   induction fuel as [|k IH]; intros visited cur merged; destruct cur as [off|]; cbn [walk walk_merge]; try reflexivity.
   destruct (existsb (N.eqb off) visited); [reflexivity|].
   destruct (mfind off m) as [r|]; [|reflexivity].
-  rewrite IH. destruct (walk m k (off :: visited) (s_prev r)); reflexivity.
+  destruct (stm_parse m r) as [hs| |]; try reflexivity.
+  rewrite IH. destruct (walk m k (off :: visited) (s_prev r)) as [l| |]; try reflexivity.
+  cbn [map fold_left]. rewrite map_app, fold_left_app. reflexivity.
 Qed.
 
 Lemma read_xref_collect f :
@@ -50,35 +75,39 @@ Proof.
   unfold file_table, merge. rewrite rev_involutive. reflexivity.
 Qed.
 
-(** * termination: the visited set bounds the loop by the number of offsets at which anything parses *)
+(** * termination: the visited set bounds the loop by the number of offsets at which anything parses;
+    each turn of the loop parses at most two sections (the section and its /XRefStm stream) *)
 Lemma walk_terminates m : forall fuel visited cur,
   NoDup visited -> incl visited (map fst m) -> (length m < fuel + length visited)%nat ->
   walk m fuel visited cur <> WFuel /\
-  forall l, walk m fuel visited cur = WOk l -> (length l + length visited <= length m)%nat.
+  forall l, walk m fuel visited cur = WOk l -> (length l + 2 * length visited <= 2 * length m)%nat.
 Proof.
   induction fuel as [|k IH]; intros visited cur ND IN F.
   - pose proof (nodup_keys_bound m visited ND IN). lia.
   - pose proof (nodup_keys_bound m visited ND IN) as B.
     destruct cur as [off|]; cbn [walk].
     + destruct (existsb (N.eqb off) visited) eqn:E.
-      * split; [discriminate|]. intros l H. injection H as <-. cbn. exact B.
+      * split; [discriminate|]. intros l H. injection H as <-. cbn [length]. lia.
       * destruct (mfind off m) as [r|] eqn:M.
         -- assert (ND' : NoDup (off :: visited)) by (constructor; [apply existsb_eqb_false; exact E|exact ND]).
            assert (IN' : incl (off :: visited) (map fst m)).
            { intros x [<-|I]; [eapply mfind_in_keys; exact M|apply IN; exact I]. }
            assert (F' : (length m < k + length (off :: visited))%nat) by (cbn [length]; lia).
            destruct (IH (off :: visited) (s_prev r) ND' IN' F') as [NF LE].
+           pose proof (stm_parse_nofuel m r) as SN. pose proof (stm_parse_len m r) as SL.
+           destruct (stm_parse m r) as [hs| |]; [|split; discriminate|contradiction].
+           specialize (SL hs eq_refl).
            destruct (walk m k (off :: visited) (s_prev r)) as [l'| |]; try (split; [discriminate|discriminate]).
            ++ split; [discriminate|]. intros l H. injection H as <-.
-              specialize (LE l' eq_refl). cbn [length] in *. lia.
+              specialize (LE l' eq_refl). cbn [length] in *. rewrite app_length. lia.
            ++ contradiction.
         -- split; discriminate.
-    + split; [discriminate|]. intros l H. injection H as <-. cbn. exact B.
+    + split; [discriminate|]. intros l H. injection H as <-. cbn [length]. lia.
 Qed.
 
 Theorem chain_terminates_lemma : forall f,
   collect_sections f <> WFuel /\ read_xref f <> WFuel /\
-  forall l, collect_sections f = WOk l -> (length l <= length (f_at f))%nat.
+  forall l, collect_sections f = WOk l -> (length l <= 2 * length (f_at f))%nat.
 Proof.
   intro f.
   destruct (walk_terminates (f_at f) (fuel_of f) [] (Some (f_start f))) as [NF LE].
@@ -88,7 +117,7 @@ Proof.
   - split; [exact NF|]. split.
     + rewrite read_xref_collect. unfold collect_sections.
       destruct (walk _ _ _ _); [discriminate|discriminate|contradiction].
-    + intros l H. specialize (LE l H). cbn in LE. lia.
+    + intros l H. specialize (LE l H). cbn [length] in LE. lia.
 Qed.
 
 (** more fuel changes nothing once the loop ends: the fuel is an artefact *)
@@ -100,6 +129,7 @@ Proof.
   - destruct j; reflexivity.
   - destruct (existsb (N.eqb off) visited); [reflexivity|].
     destruct (mfind off m) as [r|]; [|reflexivity].
+    destruct (stm_parse m r) as [hs| |]; try reflexivity.
     rewrite IH; [reflexivity|].
     intro E. rewrite E in H. contradiction.
 Qed.
@@ -115,6 +145,13 @@ Example cycle_cut :
   collect_sections {| f_at := [(10, {| s_sec := sA; s_prev := Some 20; s_xrefstm := None |});
                                (20, {| s_sec := sB; s_prev := Some 10; s_xrefstm := None |})];
                       f_start := 20 |} = WOk [sB; sA].
+Proof. vm_compute. reflexivity. Qed.
+(** /XRefStm pointing at the section itself, or at a section of the /Prev chain: parsed once more,
+    merged without effect, the chain is not cut *)
+Example xrefstm_self_and_chain :
+  collect_sections {| f_at := [(10, {| s_sec := sA; s_prev := None; s_xrefstm := Some 10 |});
+                               (20, {| s_sec := sB; s_prev := Some 10; s_xrefstm := Some 10 |})];
+                      f_start := 20 |} = WOk [sB; sA; sA; sA].
 Proof. vm_compute. reflexivity. Qed.
 
 (** without the visited set a self-referencing /Prev never ends *)
@@ -142,98 +179,89 @@ Proof.
   eapply chain_keys. exact C.
 Qed.
 
+Definition lookup_order (m : amap srec) (ch : list (N * srec)) : list section :=
+  concat (map (fun p => s_sec (snd p) :: xrefstm_secs m (snd p)) ch).
+
 Lemma walk_chain m : forall ch fuel visited cur,
   chain_from m cur ch -> NoDup (map fst ch) ->
+  (forall p, In p ch -> xrefstm_ok m (snd p)) ->
   (forall o, In o (map fst ch) -> ~ In o visited) ->
   (length ch < fuel)%nat ->
-  walk m fuel visited cur = WOk (map (fun p => s_sec (snd p)) ch).
+  walk m fuel visited cur = WOk (lookup_order m ch).
 Proof.
-  induction ch as [|[o r] older IH]; intros fuel visited cur C ND FR F.
+  induction ch as [|[o r] older IH]; intros fuel visited cur C ND OK FR F.
   - cbn in C. subst cur. destruct fuel; reflexivity.
   - cbn in C. destruct C as [-> [M C]].
     destruct fuel as [|k]; [cbn in F; lia|]. cbn [walk].
     assert (E : existsb (N.eqb o) visited = false) by (apply existsb_eqb_false; apply FR; left; reflexivity).
-    rewrite E, M.
+    rewrite E, M. rewrite (stm_parse_ok m r (OK (o, r) (or_introl eq_refl))).
     cbn [map fst] in ND. inversion ND as [|x xs NI ND' Q]. subst x xs.
     rewrite (IH k (o :: visited) (s_prev r) C ND').
     + reflexivity.
+    + intros p I. apply OK. right. exact I.
     + intros o' I [<-|I']; [contradiction|]. apply (FR o'); [right; exact I|exact I'].
     + cbn [length] in F. lia.
 Qed.
 
 Theorem chain_newest_first_lemma : forall f ch,
-  is_chain f ch -> collect_sections f = WOk (map (fun p => s_sec (snd p)) ch).
+  is_chain f ch ->
+  collect_sections f = WOk (concat (map (fun p => s_sec (snd p) :: xrefstm_secs (f_at f) (snd p)) ch)).
 Proof.
-  intros f ch [C ND]. unfold collect_sections. apply walk_chain; try assumption.
+  intros f ch [[C ND] OK]. unfold collect_sections. apply walk_chain; try assumption.
   - intros o _ [].
   - unfold fuel_of. pose proof (chain_length _ _ _ C ND). lia.
 Qed.
 
 (** * every file: the shape of what the loop returns
-    Following /Prev from startxref there is a duplicate-free path [ch] that ends
-    (a) at a section without /Prev, or (b) at a /Prev pointing back into the path (cycle) — in both
-    cases the loop returns exactly the sections of [ch], newest first, each once — or
-    (c) at an offset where nothing parses — then the loop returns Err. *)
-Lemma chain_is_path m : forall ch cur, chain_from m cur ch <-> path_from m cur ch None.
-Proof.
-  induction ch as [|[o r] older IH]; intros cur; cbn; [tauto|].
-  rewrite IH. tauto.
-Qed.
-
+    Either the loop returns Err (some /Prev or /XRefStm on the way names an offset where nothing
+    parses), or, following /Prev from startxref, there is a duplicate-free path [ch] that ends at a
+    section without /Prev or at a /Prev pointing back into the path (cycle), and the loop returns
+    exactly the lookup order of [ch]: each section once, each followed by its /XRefStm stream. *)
 Lemma walk_shape m : forall fuel visited cur,
   walk m fuel visited cur <> WFuel ->
+  walk m fuel visited cur = WErr \/
   exists ch stop,
     path_from m cur ch stop /\ NoDup (map fst ch) /\ (forall o, In o (map fst ch) -> ~ In o visited) /\
-    match stop with
-    | None => walk m fuel visited cur = WOk (map (fun p => s_sec (snd p)) ch)
-    | Some b =>
-        ((In b visited \/ In b (map fst ch)) /\ walk m fuel visited cur = WOk (map (fun p => s_sec (snd p)) ch))
-        \/ (mfind b m = None /\ walk m fuel visited cur = WErr)
-    end.
+    match stop with None => True | Some b => In b visited \/ In b (map fst ch) end /\
+    walk m fuel visited cur = WOk (lookup_order m ch).
 Proof.
   induction fuel as [|k IH]; intros visited cur NF.
   - destruct cur as [off|]; [cbn in NF; contradiction|].
-    exists [], None. cbn. repeat split; [constructor|intros o []].
+    right. exists [], None. cbn. repeat split; [constructor|intros o []].
   - destruct cur as [off|].
-    2:{ exists [], None. cbn. repeat split; [constructor|intros o []]. }
+    2:{ right. exists [], None. cbn. repeat split; [constructor|intros o []]. }
     cbn [walk] in *. destruct (existsb (N.eqb off) visited) eqn:E.
-    + exists [], (Some off). cbn. repeat split; [constructor|intros o []|].
-      left. split; [|reflexivity]. left.
-      apply existsb_exists in E. destruct E as [y [I Q]]. apply N.eqb_eq in Q. subst y. exact I.
-    + destruct (mfind off m) as [r|] eqn:M.
-      2:{ exists [], (Some off). cbn. repeat split; [constructor|intros o []|]. right. split; [exact M|reflexivity]. }
+    + right. exists [], (Some off). cbn. repeat split; [constructor|intros o []|].
+      left. apply existsb_exists in E. destruct E as [y [I Q]]. apply N.eqb_eq in Q. subst y. exact I.
+    + destruct (mfind off m) as [r|] eqn:M; [|left; reflexivity].
+      destruct (stm_parse m r) as [hs| |] eqn:SP; [|left; reflexivity|contradiction].
+      apply stm_parse_secs in SP. subst hs.
       assert (NF' : walk m k (off :: visited) (s_prev r) <> WFuel)
         by (intro Q; rewrite Q in NF; contradiction).
-      destruct (IH (off :: visited) (s_prev r) NF') as [ch [stop [P [ND [FR R]]]]].
-      exists ((off, r) :: ch), stop. cbn [path_from map fst snd].
+      destruct (IH (off :: visited) (s_prev r) NF') as [R|[ch [stop [P [ND [FR [B R]]]]]]]; rewrite R.
+      { left. reflexivity. }
+      right. exists ((off, r) :: ch), stop. cbn [path_from map fst snd].
       split; [split; [reflexivity|split; [exact M|exact P]]|].
       split.
       { constructor; [|exact ND]. intro I. apply (FR off I). left. reflexivity. }
       split.
       { intros o [<-|I]; [apply existsb_eqb_false; exact E|]. intro V. apply (FR o I). right. exact V. }
-      destruct stop as [b|].
-      * destruct R as [[B R]|[B R]]; rewrite R.
-        -- left. split; [|reflexivity].
-           destruct B as [[<-|B]|B]; [right; left; reflexivity|left; exact B|right; right; exact B].
-        -- right. split; [exact B|reflexivity].
-      * rewrite R. reflexivity.
+      split; [|reflexivity].
+      destruct stop as [b|]; [|exact I].
+      destruct B as [[<-|B]|B]; [right; left; reflexivity|left; exact B|right; right; exact B].
 Qed.
 
 Theorem walk_shape_lemma : forall f,
+  collect_sections f = WErr \/
   exists ch stop,
     path_from (f_at f) (Some (f_start f)) ch stop /\ NoDup (map fst ch) /\
-    match stop with
-    | None => collect_sections f = WOk (map (fun p => s_sec (snd p)) ch)
-    | Some b =>
-        (In b (map fst ch) /\ collect_sections f = WOk (map (fun p => s_sec (snd p)) ch))
-        \/ (mfind b (f_at f) = None /\ collect_sections f = WErr)
-    end.
+    match stop with None => True | Some b => In b (map fst ch) end /\
+    collect_sections f = WOk (concat (map (fun p => s_sec (snd p) :: xrefstm_secs (f_at f) (snd p)) ch)).
 Proof.
   intro f. destruct (chain_terminates_lemma f) as [NF _].
-  destruct (walk_shape _ _ _ _ NF) as [ch [stop [P [ND [_ R]]]]].
-  exists ch, stop. split; [exact P|]. split; [exact ND|].
-  destruct stop as [b|]; [|exact R].
-  destruct R as [[[[]|B] R]|R]; [left; split; assumption|right; exact R].
+  destruct (walk_shape _ _ _ _ NF) as [R|[ch [stop [P [ND [_ [B R]]]]]]]; [left; exact R|].
+  right. exists ch, stop. split; [exact P|]. split; [exact ND|]. split; [|exact R].
+  destruct stop as [b|]; [|exact I]. destruct B as [[]|B]; exact B.
 Qed.
 
 (** whatever was collected, the newest collected section that mentions n wins (any file) *)
@@ -246,10 +274,11 @@ Proof.
   intro n. apply merge_newest_wins_lemma.
 Qed.
 
-(** a broken /Prev: the whole walk is an error (strict: open fails; other presets: recovery scan) *)
+(** a broken /Prev or /XRefStm: the whole walk is an error (strict: open fails; other presets: recovery scan) *)
 Example broken_prev_errs :
-  read_xref {| f_at := [(10, {| s_sec := sA; s_prev := Some 777; s_xrefstm := None |})]; f_start := 10 |} = WErr.
-Proof. reflexivity. Qed.
+  read_xref {| f_at := [(10, {| s_sec := sA; s_prev := Some 777; s_xrefstm := None |})]; f_start := 10 |} = WErr /\
+  read_xref {| f_at := [(10, {| s_sec := sA; s_prev := None; s_xrefstm := Some 777 |})]; f_start := 10 |} = WErr.
+Proof. split; reflexivity. Qed.
 
 (** * the ISO walk on a well-formed chain *)
 Lemma iso_walk_chain m : forall ch fuel cur,
@@ -265,7 +294,7 @@ Proof.
 Qed.
 
 Theorem iso_sections_chain_lemma : forall f ch,
-  is_chain f ch ->
+  is_prev_chain f ch ->
   iso_sections f = concat (map (fun p => s_sec (snd p) :: xrefstm_secs (f_at f) (snd p)) ch).
 Proof.
   intros f ch [C ND]. unfold iso_sections. apply iso_walk_chain; [exact C|].
@@ -278,38 +307,18 @@ Proof.
   cbn in C. destruct C as [_ [M C]]. destruct I as [<-|I]; [exact M|]. eapply IH; eassumption.
 Qed.
 
-(** only the sections ON the chain matter *)
-Lemma iso_sections_nonhybrid_on f ch :
-  is_chain f ch -> (forall p, In p ch -> xrefstm_secs (f_at f) (snd p) = []) ->
-  iso_sections f = map (fun p => s_sec (snd p)) ch.
-Proof.
-  intros IC NH. rewrite (iso_sections_chain_lemma f ch IC). clear IC.
-  induction ch as [|p older IH]; [reflexivity|].
-  cbn [map concat]. rewrite (NH p) by (left; reflexivity).
-  cbn [app]. f_equal. apply IH. intros q I. apply NH. right. exact I.
-Qed.
-
-(** * composition with the merge theorem *)
-Theorem file_newest_wins_on_lemma : forall f ch,
-  is_chain f ch -> (forall p, In p ch -> xrefstm_secs (f_at f) (snd p) = []) ->
-  exists t, read_xref f = WOk t /\ forall n, lookup t n = loc_of (spec_lookup (revisions_of f) n).
-Proof.
-  intros f ch IC NH.
-  exists (file_table (rev (map (fun p => s_sec (snd p)) ch))). split.
-  - rewrite read_xref_collect, (chain_newest_first_lemma f ch IC). reflexivity.
-  - intro n. rewrite merge_newest_wins_lemma. unfold revisions_of.
-    rewrite (iso_sections_nonhybrid_on f ch IC NH). reflexivity.
-Qed.
-
+(** * composition with the merge theorem: every well-formed chain, hybrid or not *)
 Theorem file_newest_wins_lemma : forall f,
-  wf_chain f -> nonhybrid f ->
+  wf_chain f ->
   exists t, read_xref f = WOk t /\ forall n, lookup t n = loc_of (spec_lookup (revisions_of f) n).
 Proof.
-  intros f [ch IC] NH. apply (file_newest_wins_on_lemma f ch IC).
-  intros p I. apply (NH (fst p)). destruct IC as [C _]. eapply chain_found; eassumption.
+  intros f [ch IC]. exists (file_table (rev (iso_sections f))). split.
+  - rewrite read_xref_collect, (chain_newest_first_lemma f ch IC).
+    destruct IC as [IP _]. rewrite <- (iso_sections_chain_lemma f ch IP). reflexivity.
+  - intro n. rewrite merge_newest_wins_lemma. reflexivity.
 Qed.
 
-(** * what the code does with /XRefStm: nothing *)
+(** * the pinned loop = the fixed loop on the file with every /XRefStm key deleted *)
 Lemma mfind_strip m o :
   mfind o (map (fun p : N * srec => (fst p, strip_rec (snd p))) m) = option_map strip_rec (mfind o m).
 Proof.
@@ -317,19 +326,37 @@ Proof.
   destruct (k =? o); [reflexivity|exact IH].
 Qed.
 
-Lemma walk_strip m : forall fuel visited cur,
-  walk (map (fun p : N * srec => (fst p, strip_rec (snd p))) m) fuel visited cur = walk m fuel visited cur.
+
+Lemma walk_pinned_strip m : forall fuel visited cur,
+  walk (map (fun p : N * srec => (fst p, strip_rec (snd p))) m) fuel visited cur = walk_pinned m fuel visited cur.
 Proof.
-  induction fuel as [|k IH]; intros visited cur; destruct cur as [off|]; cbn [walk]; try reflexivity.
+  induction fuel as [|k IH]; intros visited cur; destruct cur as [off|]; cbn [walk walk_pinned]; try reflexivity.
   destruct (existsb (N.eqb off) visited); [reflexivity|].
   rewrite mfind_strip. destruct (mfind off m) as [r|]; [|reflexivity].
-  cbn [option_map strip_rec s_prev s_sec]. rewrite IH. reflexivity.
+  cbn [option_map].
+  assert (SP : stm_parse (map (fun p : N * srec => (fst p, strip_rec (snd p))) m) (strip_rec r) = WOk []).
+  { unfold stm_parse, xrefstm_target. cbn [strip_rec s_sec s_xrefstm]. destruct (s_sec r); reflexivity. }
+  rewrite SP. cbn [strip_rec s_prev s_sec app]. rewrite IH. reflexivity.
 Qed.
 
-Lemma read_xref_strip f : read_xref (strip f) = read_xref f.
+Lemma walk_merge_pinned_walk m : forall fuel visited cur merged,
+  walk_merge_pinned m fuel visited cur merged =
+  match walk_pinned m fuel visited cur with
+  | WOk l => WOk (fold_left merge_one (map parse_section l) merged)
+  | WErr => WErr
+  | WFuel => WFuel
+  end.
 Proof.
-  rewrite !read_xref_collect. unfold collect_sections, strip, fuel_of. cbn [f_at f_start].
-  rewrite map_length, walk_strip. reflexivity.
+  induction fuel as [|k IH]; intros visited cur merged; destruct cur as [off|]; cbn [walk_pinned walk_merge_pinned]; try reflexivity.
+  destruct (existsb (N.eqb off) visited); [reflexivity|].
+  destruct (mfind off m) as [r|]; [|reflexivity].
+  rewrite IH. destruct (walk_pinned m k (off :: visited) (s_prev r)); reflexivity.
+Qed.
+
+Lemma read_xref_pinned_strip f : read_xref_pinned f = read_xref (strip f).
+Proof.
+  unfold read_xref_pinned, read_xref, strip, fuel_of. cbn [f_at f_start].
+  rewrite walk_merge_pinned_walk, walk_merge_walk, map_length, walk_pinned_strip. reflexivity.
 Qed.
 
 Lemma chain_strip m : forall ch cur,
@@ -343,27 +370,23 @@ Proof.
   - apply IH. exact C.
 Qed.
 
-Lemma wf_chain_strip f : wf_chain f -> wf_chain (strip f).
+
+Lemma wf_chain_strip f : wf_prev_chain f -> wf_chain (strip f).
 Proof.
-  intros [ch [C ND]]. exists (map (fun p : N * srec => (fst p, strip_rec (snd p))) ch). split.
+  intros [ch [C ND]]. exists (map (fun p : N * srec => (fst p, strip_rec (snd p))) ch). split; [split|].
   - apply chain_strip. exact C.
   - rewrite map_map. cbn [fst]. exact ND.
+  - intros p I. apply in_map_iff in I. destruct I as [q [<- _]].
+    unfold xrefstm_ok, xrefstm_target. cbn [snd strip_rec s_sec s_xrefstm]. destruct (s_sec (snd q)); exact I.
 Qed.
 
-Lemma nonhybrid_strip f : nonhybrid (strip f).
+(** the pinned reader on every /Prev chain, hybrid or not: it answers as if no trailer had /XRefStm *)
+Theorem pinned_ignores_xrefstm_lemma : forall f,
+  wf_prev_chain f ->
+  exists t, read_xref_pinned f = WOk t /\ forall n, lookup t n = loc_of (spec_lookup (revisions_of (strip f)) n).
 Proof.
-  intros o r M. unfold strip in M. cbn [f_at] in M. rewrite mfind_strip in M.
-  destruct (mfind o (f_at f)) as [r0|]; [|discriminate]. injection M as <-.
-  unfold xrefstm_secs. cbn [strip_rec s_sec s_xrefstm]. destruct (s_sec r0); reflexivity.
-Qed.
-
-(** every well-formed chain, hybrid or not: the reader answers as if no trailer had /XRefStm *)
-Theorem file_ignores_xrefstm_lemma : forall f,
-  wf_chain f ->
-  exists t, read_xref f = WOk t /\ forall n, lookup t n = loc_of (spec_lookup (revisions_of (strip f)) n).
-Proof.
-  intros f W. rewrite <- read_xref_strip.
-  apply file_newest_wins_lemma; [apply wf_chain_strip; exact W|apply nonhybrid_strip].
+  intros f W. rewrite read_xref_pinned_strip.
+  apply file_newest_wins_lemma. apply wf_chain_strip. exact W.
 Qed.
 
 (** * the hybrid-reference witness (ISO 32000-1 7.5.8.4)
@@ -385,63 +408,30 @@ Lemma hyb_file_wf : wf_chain hyb_file.
 Proof.
   exists [(400, {| s_sec := hyb_upd; s_prev := Some 100; s_xrefstm := Some 300 |});
           (100, {| s_sec := hyb_base; s_prev := None; s_xrefstm := None |})].
-  split.
+  split; [split|].
   - cbn. repeat split.
   - cbn. repeat constructor; cbn; intuition discriminate.
+  - intros p [<-|[<-|[]]]; cbn; [discriminate|exact I].
 Qed.
 
+(** the pinned loop does not have the property *)
 Lemma hybrid_refuted_lemma :
-  exists f t n, wf_chain f /\ read_xref f = WOk t /\ lookup t n <> loc_of (spec_lookup (revisions_of f) n).
+  exists f t n, wf_chain f /\ read_xref_pinned f = WOk t /\ lookup t n <> loc_of (spec_lookup (revisions_of f) n).
 Proof.
   exists hyb_file, (file_table [hyb_base; hyb_upd]), 5. split; [exact hyb_file_wf|].
   split; [vm_compute; reflexivity|]. vm_compute. discriminate.
 Qed.
 
-(** what each side answers on the witness: the code reads the hidden objects 5 and 6 as free (null),
-    the standard finds them through the /XRefStm stream; everything else agrees *)
+(** what each side answers on the witness: the pinned code reads the hidden objects 5 and 6 as free
+    (null), the fixed code and the standard find them through the /XRefStm stream *)
 Example hybrid_witness_values :
-  read_xref hyb_file = WOk (file_table [hyb_base; hyb_upd]) /\
+  read_xref_pinned hyb_file = WOk (file_table [hyb_base; hyb_upd]) /\
   map (lookup (file_table [hyb_base; hyb_upd])) [1; 2; 5; 6] = [LOffset 17; LOffset 350; LNull; LNull] /\
+  collect_sections hyb_file = WOk [hyb_upd; hyb_stm; hyb_base] /\
+  read_xref hyb_file = WOk (file_table [hyb_base; hyb_stm; hyb_upd]) /\
+  map (lookup (file_table [hyb_base; hyb_stm; hyb_upd])) [1; 2; 5; 6]
+    = [LOffset 17; LOffset 350; LCompressed 6 0; LOffset 250] /\
   map (fun n => loc_of (spec_lookup (revisions_of hyb_file) n)) [1; 2; 5; 6]
-    = [LOffset 17; LOffset 350; LCompressed 6 0; LOffset 250].
-Proof. vm_compute. repeat split. Qed.
-
-(** * the candidate repair meets the standard on every well-formed chain, hybrid or not *)
-Lemma walk_hybrid_chain m : forall ch fuel visited cur,
-  chain_from m cur ch -> NoDup (map fst ch) ->
-  (forall o, In o (map fst ch) -> ~ In o visited) ->
-  (length ch < fuel)%nat ->
-  walk_hybrid m fuel visited cur = WOk (concat (map (fun p => s_sec (snd p) :: xrefstm_secs m (snd p)) ch)).
-Proof.
-  induction ch as [|[o r] older IH]; intros fuel visited cur C ND FR F.
-  - cbn in C. subst cur. destruct fuel; reflexivity.
-  - cbn in C. destruct C as [-> [M C]].
-    destruct fuel as [|k]; [cbn in F; lia|]. cbn [walk_hybrid].
-    assert (E : existsb (N.eqb o) visited = false) by (apply existsb_eqb_false; apply FR; left; reflexivity).
-    rewrite E, M.
-    cbn [map fst] in ND. inversion ND as [|x xs NI ND' Q]. subst x xs.
-    rewrite (IH k (o :: visited) (s_prev r) C ND').
-    + reflexivity.
-    + intros o' I [<-|I']; [contradiction|]. apply (FR o'); [right; exact I|exact I'].
-    + cbn [length] in F. lia.
-Qed.
-
-Theorem hybrid_repair_newest_wins_lemma : forall f,
-  wf_chain f ->
-  exists l, collect_sections_hybrid f = WOk l /\
-            forall n, lookup (file_table (rev l)) n = loc_of (spec_lookup (revisions_of f) n).
-Proof.
-  intros f [ch IC]. exists (iso_sections f). split.
-  - rewrite (iso_sections_chain_lemma f ch IC). destruct IC as [C ND].
-    unfold collect_sections_hybrid. apply walk_hybrid_chain; try assumption.
-    + intros o _ [].
-    + unfold fuel_of. pose proof (chain_length _ _ _ C ND). lia.
-  - intro n. rewrite merge_newest_wins_lemma. reflexivity.
-Qed.
-
-Example hybrid_repair_on_witness :
-  collect_sections_hybrid hyb_file = WOk [hyb_upd; hyb_stm; hyb_base] /\
-  map (lookup (file_table (rev [hyb_upd; hyb_stm; hyb_base]))) [1; 2; 5; 6]
     = [LOffset 17; LOffset 350; LCompressed 6 0; LOffset 250].
 Proof. vm_compute. repeat split. Qed.
 
@@ -499,11 +489,11 @@ Proof. reflexivity. Qed.
 Theorem open_newest_wins_lemma : forall pre k post m,
   settled pre -> ~ In LStartxref post ->
   let f := {| f_at := m; f_start := k |} in
-  wf_chain f -> nonhybrid f ->
+  wf_chain f ->
   exists t, open_xref (pre ++ LStartxref :: LNum k :: post) m = WOk t /\
             forall n, lookup t n = loc_of (spec_lookup (revisions_of f) n).
 Proof.
-  intros pre k post m S NI f W NH. unfold open_xref.
+  intros pre k post m S NI f W. unfold open_xref.
   rewrite (startxref_last_wins_lemma pre k post S NI).
   apply file_newest_wins_lemma; assumption.
 Qed.
@@ -520,21 +510,15 @@ Definition ex_file : xfile :=
               (600, {| s_sec := ex_r2; s_prev := Some 200; s_xrefstm := None |})];
      f_start := 900 |}.
 
-Example ex_file_hyps : wf_chain ex_file /\ nonhybrid ex_file.
+Example ex_file_hyps : wf_chain ex_file.
 Proof.
-  split.
-  - exists [(900, {| s_sec := ex_r3; s_prev := Some 600; s_xrefstm := None |});
-            (600, {| s_sec := ex_r2; s_prev := Some 200; s_xrefstm := None |});
-            (200, {| s_sec := ex_r1; s_prev := None; s_xrefstm := None |})].
-    split.
-    + cbn. repeat split.
-    + cbn. repeat constructor; cbn; intuition discriminate.
-  - intros o r M. unfold xrefstm_secs.
-    assert (X : s_xrefstm r = None).
-    { cbn in M. repeat match type of M with
-        | (if ?c then _ else _) = _ => destruct c; [injection M as <-; reflexivity|]
-        end. discriminate. }
-    rewrite X. destruct (s_sec r); reflexivity.
+  exists [(900, {| s_sec := ex_r3; s_prev := Some 600; s_xrefstm := None |});
+          (600, {| s_sec := ex_r2; s_prev := Some 200; s_xrefstm := None |});
+          (200, {| s_sec := ex_r1; s_prev := None; s_xrefstm := None |})].
+  split; [split|].
+  - cbn. repeat split.
+  - cbn. repeat constructor; cbn; intuition discriminate.
+  - intros p [<-|[<-|[<-|[]]]]; exact I.
 Qed.
 
 Example ex_file_values :
